@@ -18,22 +18,29 @@ from . import common
 
 ID = "C15"
 LEAN_MODULES = ["DclabModel.Properties.C15"]
-RULE = ("(a) exhaustive: every vertex sequence of length 3-4 (thorough: 3-5; plus length 3 and every 4th of length 4 on a 4x4 grid with 49 query points) "
-        "on the 3x3 integer grid x all 25 grid and half-grid query points, all compared bit by bit "
-        "with the Lean model (boundary points included, the arithmetic is exact there); "
+RULE = ("(a) exhaustive: every vertex sequence of length 3-4 (thorough: 3-5; plus length 3 and every "
+        "4th of length 4 on a 4x4 grid) on the 3x3 integer grid x all 25 grid and half-grid query "
+        "points + 5 points outside every bounding box, each polygon at unit scale (40 %) or scaled "
+        "by a random power of two 2^-60..2^40 (exact), all compared bit by bit with the Lean model "
+        "(boundary points included, the arithmetic is exact there); "
         "(b) seeded random polygons with 3-12 vertices (convex, star, self-intersecting, lattice "
-        "with ties; duplicate/closing vertices, collinear runs) with dyadic coordinates m*2^e, "
-        "e in [-20,20], query points random, level with vertices, beside edges; points that the "
-        "model places within 2^-40 relative of a crossing abscissa are skipped (counted). On every "
-        "route (.so via PolygonFilter.filter, point_in_poly, pnpoly.points_in_poly, "
+        "with ties; duplicate/closing vertices, collinear runs, vertices revisited, a vertex or a "
+        "closing vertex a relative 1e-4..1e-12 step away from its neighbour) with dyadic "
+        "coordinates m*2^e, e in [-60,40], query points random, level with vertices, beside edges, "
+        "inside the thin triangles of near-duplicate vertices, outside the bounding box (4 % of the "
+        "cases: only such points); points that the model places within 2^-40 relative of a "
+        "crossing abscissa are skipped (counted). On every route (.so via PolygonFilter.filter "
+        "with contiguous and strided arrays, point_in_poly, pnpoly.points_in_poly, "
         "grid_points_in_poly, de-cythonised current .pyx source) the property's oracle is "
         "evaluated directly: off-boundary => inside == odd crossings of a generic tilted ray "
-        "(exact integers), cyclic shift / reversal / repeated closing vertex / duplicate vertex "
-        "invariance, inversion == complement. (c) .poly round trip of 1-6 filters (save, save_all, "
+        "(exact integers); cyclic shift / reversal / repeated closing vertex / duplicate vertex / "
+        "power-of-two scaling invariance; inversion == complement; batch independence for plain "
+        "and inverted filters (empty point set, only the points outside the bounding box, single "
+        "points, batches of 1e3..7e4 points). (c) .poly round trip of 1-6 filters (save, save_all, "
         "file object; cleared and pre-populated registries): name, axes, inverted, id, points "
-        "bit-exact, classifications; ids and counter compared with the model. "
-        "distinct = distinct (polygon, points) inputs with at least one point level with a vertex, "
-        "on a horizontal edge line or with a vertex-level tie, or round-trip sets needing 17 digits.")
+        "bit-exact, classifications, copy()/copy(invert=True); ids and counter compared with the "
+        "model. distinct = distinct (polygon, points) inputs with at least one point level with a "
+        "vertex, or round-trip sets needing 17 digits.")
 TRUSTED_BASE = [
     "binary64 rounding of `(xj-xi)*(y-yi)/(yj-yi)+xi` in the compiled code: outside the model; "
     "query points within 2^-40*(|xi|+|xj-xi|) of an exact crossing abscissa are not compared "
@@ -234,6 +241,7 @@ class Impl:
         self.PF = dclab.PolygonFilter
         self.pnpoly = pnpoly
         self.src = SourceImpl()
+        self._calls = 0
         self.PF.clear_all_filters()
         self.pf = self.PF(axes=("area_um", "deform"), points=[[0, 0], [1, 0], [1, 1]])
         self.pf_inv = self.PF(axes=("area_um", "deform"), points=[[0, 0], [1, 0], [1, 1]],
@@ -258,6 +266,9 @@ class Impl:
                 pf = self.pf_inv if inverted else self.pf
                 pf.points = np.array(poly, dtype=np.float64)
                 a = np.array(pts, dtype=np.float64).reshape(-1, 2)
+                self._calls += 1
+                if self._calls % 3 == 0:     # feature data may be any 1d array: strided views
+                    return [bool(b) for b in pf.filter(a[:, 0], a[:, 1])]
                 return [bool(b) for b in pf.filter(a[:, 0].copy(), a[:, 1].copy())]
             if route == "pnpoly":
                 out = [bool(b) for b in self.pnpoly.points_in_poly(
@@ -287,6 +298,8 @@ GRID3 = [(float(x), float(y)) for x in range(3) for y in range(3)]
 HALF3 = [(a / 2, b / 2) for a in range(5) for b in range(5)]
 GRID4 = [(float(x), float(y)) for x in range(4) for y in range(4)]
 HALF4 = [(a / 2, b / 2) for a in range(7) for b in range(7)]
+FAR3 = [(-1.0, 1.0), (3.0, 0.5), (1.0, 3.0), (0.5, -1.0), (500.0, 500.0)]     # outside every bbox
+FAR4 = [(-1.0, 1.0), (4.0, 0.5), (1.0, 4.0), (0.5, -1.0), (500.0, 500.0)]
 
 
 def dyadic(rng, mbits, e):
@@ -297,7 +310,7 @@ def dyadic(rng, mbits, e):
 def gen_polygon(rng):
     kind = rng.choice(["convex", "star", "random", "random", "lattice", "lattice"])
     n = rng.randint(3, 12)
-    e = rng.randint(-20, 20)
+    e = rng.choice([rng.randint(-20, 20), rng.randint(-60, 40), rng.randint(-60, -25)])
     scale = math.ldexp(1.0, e)
     mbits = rng.choice([4, 10, 24, 40])
     q = math.ldexp(1.0, e - mbits)          # quantum: coordinates are multiples of it
@@ -339,10 +352,57 @@ def gen_polygon(rng):
     if rng.random() < 0.2 and len(poly) < 12:
         poly.insert(rng.randrange(len(poly)), poly[rng.randrange(len(poly))])
         mods.append("revisit")
-    return kind, mods, poly, scale
+    # a vertex that is a tiny but non-zero step away from its predecessor (anywhere), or a last
+    # vertex that nearly closes the polygon: the thin triangle it spans is part of the input
+    slivers = []
+    if rng.random() < 0.35 and len(poly) < 12:
+        rel = 10.0 ** -rng.uniform(4, 12)
+        size = max(abs(c) for v in poly for c in v) or scale
+        off = (rng.choice([-1, 1]) * rel * size * rng.uniform(0.3, 1),
+               rng.choice([-1, 1]) * rel * size * rng.uniform(0.3, 1))
+        if rng.random() < 0.6:
+            v = poly[0]
+            w = (v[0] + off[0], v[1] + off[1])
+            if w != v:
+                slivers.append((poly[-1], w, v))
+                poly.append(w)
+                mods.append("nearly-closed")
+        else:
+            i = rng.randrange(len(poly))
+            v = poly[i]
+            w = (v[0] + off[0], v[1] + off[1])
+            if w != v:
+                slivers.append((poly[(i + 1) % len(poly)], v, w))
+                poly.insert(i + 1, w)
+                mods.append("near-duplicate")
+    return kind, mods, poly, scale, slivers
 
 
-def gen_points(rng, poly, scale, k):
+def outside_points(poly, rng=None):
+    """points strictly outside the bounding box of the polygon (left, right, above, below, far)"""
+    xs = [p[0] for p in poly]
+    ys = [p[1] for p in poly]
+    lo_x, hi_x, lo_y, hi_y = min(xs), max(xs), min(ys), max(ys)
+    w = max(hi_x - lo_x, hi_y - lo_y, abs(lo_x), abs(hi_x), abs(lo_y), abs(hi_y)) or 1.0
+    r = rng.random() if rng else 0.5
+    return [(lo_x - w, lo_y + r * (hi_y - lo_y)), (hi_x + w, hi_y - r * (hi_y - lo_y)),
+            (lo_x + r * (hi_x - lo_x), hi_y + w / 2), (hi_x - r * (hi_x - lo_x), lo_y - w / 4),
+            (hi_x + 1000 * w, hi_y + 1000 * w)]
+
+
+def gen_points(rng, poly, scale, k, slivers=()):
+    pts = _gen_points(rng, poly, scale, k)
+    for (a, v, w) in slivers:       # inside the thin triangle (a, v, w)
+        m = ((v[0] + w[0]) / 2, (v[1] + w[1]) / 2)
+        for _ in range(6):
+            t = rng.uniform(0.2, 0.97)
+            pts.append((a[0] + t * (m[0] - a[0]), a[1] + t * (m[1] - a[1])))
+    out = outside_points(poly, rng)
+    pts += rng.sample(out, rng.randint(2, 5))
+    return [(float(x), float(y)) for x, y in pts]
+
+
+def _gen_points(rng, poly, scale, k):
     xs = [p[0] for p in poly]
     ys = [p[1] for p in poly]
     lo_x, hi_x, lo_y, hi_y = min(xs), max(xs), min(ys), max(ys)
@@ -403,10 +463,12 @@ def judge(poly, pts, exact, skip):
     return want
 
 
-def oracle_check(impl, route, poly, pts, exact, skip, k=3, laws=True, want=None):
+def oracle_check(impl, route, poly, pts, exact, skip, k=3, laws=True, want=None, batch=None):
     """returns (failures, base answers); failures = list of (what, point index) describing
     violations of the property's own oracle on this route"""
     fails = []
+    if batch is None:
+        batch = route in ("filter", "pnpoly", "source_wrapped")
     base = impl.classify(route, poly, pts)
     if isinstance(base, str):
         return [(f"raises {base}", 0)], base
@@ -430,15 +492,69 @@ def oracle_check(impl, route, poly, pts, exact, skip, k=3, laws=True, want=None)
                 if isinstance(got, str) or got[i] != base[i]:
                     fails.append((f"classification changes under {name}", i))
                     break
+        # the same figure on another power-of-two scale (exact in binary64: every point counts)
+        kk = ((k * 7919) % 101) - 60
+        sp, sq = scaled(poly, pts, kk)
+        got = impl.classify(route, sp, sq)
+        if isinstance(got, str) or got != base:
+            j = 0 if isinstance(got, str) else [a != b for a, b in zip(got, base)].index(True)
+            fails.append((f"classification changes when polygon and points are scaled by 2^{kk}", j))
+    if batch:
+        fails += batch_checks(impl, route, poly, pts, base, inv, want, k)
     return fails, base
 
 
-def shrink_poly(impl, route, poly, pt, exact):
+def batch_checks(impl, route, poly, pts, base, inv, want, k):
+    """a point's classification must not depend on the other points of the batch: the empty
+    set, the points outside the bounding box alone, single points, a long tiled batch – for the
+    plain and the inverted filter; each answer is also judged by the oracle directly"""
+    fails = []
+    if isinstance(inv, str):
+        return fails
+    n = len(pts)
+    xs = [v[0] for v in poly]
+    ys = [v[1] for v in poly]
+    out = [i for i, q in enumerate(pts)
+           if q[0] < min(xs) or q[0] > max(xs) or q[1] < min(ys) or q[1] > max(ys)]
+    sets = [("the empty point set", [])]
+    if out and len(out) < n:
+        sets.append(("the points outside the polygon's bounding box, taken alone", out))
+    if n:
+        picks = {k % n, (k // 3) % n} | ({out[k % len(out)]} if out else set())
+        sets += [("a single point, taken alone", [i]) for i in sorted(picks)]
+    if n and k % 40 == 0:
+        reps = 1 + (1000 + (k * 131) % 70000) // n
+        sets.append((f"a batch of {reps * n} points", list(range(n)) * reps))
+    for name, idx in sets:
+        for inverted in (False, True):
+            got = impl.classify(route, poly, [pts[i] for i in idx], inverted=inverted)
+            ref = inv if inverted else base
+            tag = " (inverted filter)" if inverted else ""
+            if isinstance(got, str) or len(got) != len(idx):
+                fails.append((f"{name}{tag}: {got if isinstance(got, str) else 'wrong length'}",
+                              idx[0] if idx else 0))
+                continue
+            for j, i in enumerate(idx):
+                w = want[i]
+                if w is not None and got[j] != (w != inverted):
+                    fails.append((f"{name}{tag}: point off the boundary classified "
+                                  f"{'inside' if got[j] else 'outside'} by the filter, but a "
+                                  f"generic ray crosses the boundary an "
+                                  f"{'odd' if w else 'even'} number of times", i))
+                    break
+                if got[j] != ref[i]:
+                    fails.append((f"{name}{tag}: classified differently than within the full "
+                                  f"batch", i))
+                    break
+    return fails
+
+
+def shrink_poly(impl, route, poly, pt, exact, k=3):
     def pred(vs):
         if len(vs) < 3:
             return False
         sk = [False] if exact else [near_py(vs, pt)]
-        f, _ = oracle_check(impl, route, list(vs), [pt], exact, sk)
+        f, _ = oracle_check(impl, route, list(vs), [pt], exact, sk, k=k)
         return bool(f)
     if not pred(poly):
         return poly
@@ -492,7 +608,11 @@ def gen_fileset(rng, allow_eq):
     pre = []
     if rng.random() < 0.4:    # registry not cleared before the import: ids may be taken
         pre = sorted(rng.sample(range(0, 45), rng.randint(1, 4)))
-    return {"filters": filters, "mode": rng.choice(["save_all", "save", "fobj"]), "pre": pre}
+    mode = rng.choice(["save_all", "save", "fobj"])
+    order = list(range(k))
+    if mode != "save_all" and rng.random() < 0.6:     # filters saved one by one in any order
+        rng.shuffle(order)
+    return {"filters": filters, "mode": mode, "pre": pre, "order": order}
 
 
 def probe_points(flt):
@@ -532,15 +652,31 @@ def run_fileset(ctx, impl, fs, tag):
                              "probe": pp, "cls": o.filter(pp[:, 0].copy(), pp[:, 1].copy()).copy()})
             if len({o["uid"] for o in orig}) != len(orig):
                 fails.append("two live filters share one unique id")
+            for i, (o, d) in enumerate(zip(list(objs), orig)):     # copy / copy(invert=True)
+                pp = d["probe"]
+                far = np.array(outside_points(d["points"].tolist()))
+                for q in (pp, far, far[:1], pp[:0]):
+                    a = o.filter(q[:, 0].copy(), q[:, 1].copy())
+                    b = o.copy(invert=True).filter(q[:, 0].copy(), q[:, 1].copy())
+                    c2 = o.copy().filter(q[:, 0].copy(), q[:, 1].copy())
+                    if a.shape != b.shape or np.any(a == b) or not np.array_equal(a, c2):
+                        fails.append(f"filter {i}: copy(invert=True) is not the complement / copy() "
+                                     f"differs on {len(q)} points")
+                        break
+                del PF.instances[len(objs):]      # the copies registered themselves
+            order = [i for i in fs.get("order", range(len(objs))) if i < len(objs)]
+            order += [i for i in range(len(objs)) if i not in order]
             if fs["mode"] == "save_all":
+                order = list(range(len(objs)))
                 PF.save_all(path)
             elif fs["mode"] == "save":
-                for o in objs:
-                    o.save(path)
+                for i in order:
+                    objs[i].save(path)
             else:
                 with open(path, "w") as fd:
-                    for o in objs:
-                        o.save(fd, ret_fobj=True)
+                    for i in order:
+                        objs[i].save(fd, ret_fobj=True)
+            orig = [orig[i] for i in order]            # from here on: in file order
         except BaseException as e:  # PolygonFilterError derives from BaseException
             if isinstance(e, (KeyboardInterrupt, SystemExit)):
                 raise
@@ -568,13 +704,16 @@ def run_fileset(ctx, impl, fs, tag):
                            "points": np.array(g.points, dtype=np.float64)} for g in loaded]}
         if len(loaded) != len(orig):
             fails.append(f"{len(orig)} filters saved, {len(loaded)} imported")
+        taken = set(pre_ids)
         for i, (o, g) in enumerate(zip(orig, loaded)):
             gl = obs["loaded"][i]
             for key in ("axes", "inverted", "name"):
                 if o[key] != gl[key]:
                     fails.append(f"filter {i}: {key} {o[key]!r} -> {gl[key]!r}")
-            if not fs["pre"] and o["uid"] != gl["uid"]:
-                fails.append(f"filter {i}: identifier {o['uid']} -> {gl['uid']}")
+            if o["uid"] not in taken and o["uid"] != gl["uid"]:
+                fails.append(f"filter {i}: identifier {o['uid']} -> {gl['uid']} although "
+                             f"{o['uid']} was free (registry ids before: {sorted(taken)})")
+            taken.add(gl["uid"])
             a, b = o["points"], gl["points"]
             if a.shape != b.shape or not np.array_equal(a.view(np.int64), b.view(np.int64)):
                 bad = "shape" if a.shape != b.shape else \
@@ -621,6 +760,14 @@ def fileset_impl_line(obs):
 
 
 def shrink_fileset(ctx, impl, fs):
+    order = [i for i in fs.get("order", range(len(fs["filters"]))) if i < len(fs["filters"])]
+    base = dict(fs, filters=[fs["filters"][i] for i in order] if fs["mode"] != "save_all"
+                else fs["filters"], order=list(range(len(fs["filters"]))))
+    f0, _ = run_fileset(ctx, impl, base, "shrink")
+    if not f0:                      # the failure needs creation order != file order: keep as is
+        return fs
+    fs = base
+
     def fails(sub):
         f, _ = run_fileset(ctx, impl, dict(fs, filters=list(sub)), "shrink")
         return bool(f)
@@ -657,16 +804,20 @@ def build_poly_cases(ctx):
                 cases.append({"kind": "corpus", "exact": bool(c.get("exact")),
                               "poly": [tuple(v) for v in c["poly"]],
                               "pts": [tuple(v) for v in c["pts"]]})
+    def grid_case(kind, poly, pts):
+        # exact arithmetic survives a power-of-two scaling: 40 % at unit scale, else 2^-60 .. 2^40
+        k = 0 if ctx.rng.random() < 0.4 else ctx.rng.randint(-60, 40)
+        sp, sq = scaled(list(poly), pts, k)
+        return {"kind": kind, "exact": True, "poly": sp, "pts": sq, "log2scale": k}
     for n in ((3, 4, 5) if ctx.thorough else (3, 4)):
         for poly in itertools.product(GRID3, repeat=n):
-            cases.append({"kind": f"grid3x3-{n}", "exact": True, "poly": list(poly), "pts": HALF3})
+            cases.append(grid_case(f"grid3x3-{n}", poly, HALF3 + FAR3))
     if ctx.thorough:
         for n in (3, 4):
             for j, poly in enumerate(itertools.product(GRID4, repeat=n)):
                 if n == 3 or j % 4 == 0:
-                    cases.append({"kind": f"grid4x4-{n}", "exact": True, "poly": list(poly),
-                                  "pts": HALF4})
-    n_rand = ctx.n(1000, 12000)
+                    cases.append(grid_case(f"grid4x4-{n}", poly, HALF4 + FAR4))
+    n_rand = ctx.n(1000, 9000)
     if not ctx.lean_ok:          # search-only mode after a broken proof: stay inside the time limit
         n_rand = 30000 if ctx.thorough else 5000
     for _ in range(n_rand):
@@ -675,30 +826,42 @@ def build_poly_cases(ctx):
 
 
 def gen_random_case(rng):
-    kind, mods, poly, scale = gen_polygon(rng)
-    pts = gen_points(rng, poly, scale, rng.randint(20, 60))
-    return {"kind": kind, "mods": mods, "exact": False, "poly": poly, "pts": pts}
+    kind, mods, poly, scale, slivers = gen_polygon(rng)
+    if rng.random() < 0.04:      # a measurement in which no event is anywhere near the polygon
+        pts = [q for _ in range(rng.randint(1, 4)) for q in outside_points(poly, rng)]
+        pts = rng.sample(pts, rng.randint(1, len(pts)))
+        mods = mods + ["all-points-outside-bbox"]
+    else:
+        pts = gen_points(rng, poly, scale, rng.randint(20, 60), slivers)
+    return {"kind": kind, "mods": mods, "exact": False, "poly": poly, "pts": pts,
+            "log2scale": int(math.floor(math.log2(scale)))}
 
 
-def replay_of(route, c, i, what, base):
-    return {"part": "containment", "route": route, "exact": c["exact"],
+def scaled(poly, pts, k):
+    """multiply every coordinate by 2**k (exact in binary64 for the magnitudes used)"""
+    return ([(math.ldexp(x, k), math.ldexp(y, k)) for x, y in poly],
+            [(math.ldexp(x, k), math.ldexp(y, k)) for x, y in pts])
+
+
+def replay_of(route, c, i, what, base, k=3):
+    return {"part": "containment", "route": route, "k": k, "exact": c["exact"],
             "poly": [list(v) for v in c["poly"]], "point": list(c["pts"][i]), "what": what,
             "implementation_says": None if isinstance(base, str) else bool(base[i])}
 
 
-def report_spec(ctx, impl, route, c, fails, base):
+def report_spec(ctx, impl, route, c, fails, base, k=3):
     what, i = fails[0]
     pt = c["pts"][i]
-    small = shrink_poly(impl, route, list(c["poly"]), pt, c["exact"])
+    small = shrink_poly(impl, route, list(c["poly"]), pt, c["exact"], k)
     sk = [False] if c["exact"] else [near_py(small, pt)]
-    f2, b2 = oracle_check(impl, route, small, [pt], c["exact"], sk)
+    f2, b2 = oracle_check(impl, route, small, [pt], c["exact"], sk, k=k)
     if f2:
         what = f2[0][0]
     cc = dict(c, poly=small, pts=[pt])
     label = {"source": "current geometry.pyx text (de-cythonised; the compiled .so is stale)",
              "source_wrapped": "current _pnpoly.pyx/geometry.pyx text (de-cythonised; the compiled "
                                ".so is stale)"}.get(route, f"compiled code via {route}")
-    ctx.violation("spec", f"{label}: {what}", replay_of(route, cc, 0, what, b2 if f2 else base[i:i + 1]))
+    ctx.violation("spec", f"{label}: {what}", replay_of(route, cc, 0, what, b2 if f2 else base[i:i + 1], k))
 
 
 def run(ctx):
@@ -721,7 +884,7 @@ def run(ctx):
                                        k=idx * 31 + 5, laws=laws, want=want)
             per_route[route] = bits(base)
             if fails and not spec_failed:
-                report_spec(ctx, impl, route, c, fails, base)
+                report_spec(ctx, impl, route, c, fails, base, k=idx * 31 + 5)
                 spec_failed = True
         ctx.stat("points_judged_by_oracle", sum(1 for w in want if w is not None))
         ctx.stat("points_inside", sum(1 for w in want if w))
@@ -732,6 +895,9 @@ def run(ctx):
                          "answers": {r: b[:6] for r, b in per_route.items()}}
                  if (not exact and lv > 0) or idx == 2500 else None)
         ctx.stat("kind=" + c["kind"])
+        sc = c.get("log2scale", 0)
+        ctx.stat("log2scale " + ("< -40" if sc < -40 else "-40..-21" if sc < -20 else
+                                 "-20..20" if sc <= 20 else "> 20"))
         for m in c.get("mods", []):
             ctx.stat("mod=" + m)
         ctx.stat("points", len(c["pts"]))
@@ -741,7 +907,7 @@ def run(ctx):
     # grid_points_in_poly on the integer grid (compiled code only; mirror)
     grid_bad = None
     for idx, c in enumerate(cases):
-        if c["kind"].startswith("grid3x3") and idx % 8 == 0:
+        if c["kind"].startswith("grid3x3") and c["log2scale"] == 0:
             try:
                 g = impl.pnpoly.grid_points_in_poly((3, 3), np.array(c["poly"]))
                 want = impl.classify("pnpoly", c["poly"], GRID3)
@@ -776,9 +942,11 @@ def run(ctx):
             f2 = f2 or fails
             ctx.violation("spec", ".poly round trip: " +
                           next((f for f in f2 if "classified" in f), f2[0]).replace("np.float64", "") +
-                          (" (F15: coordinates saved with too few digits)" if j == 0 else ""),
+                          (" (F15: coordinates saved with too few digits)"
+                           if j == 0 and any("bit-exact" in f for f in f2) else ""),
                           dict(small, part="roundtrip"))
-    probe_f15b(ctx, impl)
+    if not persist_failed:
+        probe_f15b(ctx, impl)
 
     # ---------------- model side: one driver run ---------------------------------------
     mirror_bad = []
@@ -821,21 +989,24 @@ def run(ctx):
     if mirror_bad and not (spec_failed or persist_failed):
         # correspondence broke without a property failure so far: extended search on the code
         found = False
-        for _ in range(30000 if ctx.thorough else 3500):
+        poly_side = any(m[0] != "import_all" for m in mirror_bad)
+        file_side = any(m[0] == "import_all" for m in mirror_bad)
+        for _ in range((15000 if ctx.thorough else 1500) if poly_side else 0):
             c = gen_random_case(ctx.rng)
             skip = [near_py(c["poly"], p) for p in c["pts"]]
             want = judge(c["poly"], c["pts"], False, skip)
+            kx = ctx.rng.randrange(1000)
             for route, laws in impl.routes(True):
                 fails, base = oracle_check(impl, route, c["poly"], c["pts"], False, skip,
-                                           k=ctx.rng.randrange(1000), laws=laws, want=want)
+                                           k=kx, laws=laws, want=want)
                 if fails:
-                    report_spec(ctx, impl, route, c, fails, base)
+                    report_spec(ctx, impl, route, c, fails, base, k=kx)
                     found = True
                     break
             if found:
                 break
         if not found:
-            for _ in range(3000 if ctx.thorough else 300):
+            for _ in range((3000 if ctx.thorough else 300) if file_side else 0):
                 fs = gen_fileset(ctx.rng, allow_eq)
                 fails, _ = run_fileset(ctx, impl, fs, "ext")
                 if fails:
@@ -874,7 +1045,8 @@ def probe_f15b(ctx, impl):
             ctx.violation("spec", ".poly round trip of a name containing '=': " + fails[0],
                           dict(F15B_CASE, part="roundtrip"))
     else:
-        ctx.note("F15b (name containing '=') no longer reproduces")
+        if any(k["id"] == "F15b" for k in ctx.known_open):
+            ctx.note("F15b (name containing '=') no longer reproduces")
 
 
 def replay(ctx, data):
@@ -892,7 +1064,7 @@ def replay(ctx, data):
         if route not in [r for r, _ in impl.routes(True)]:
             print("route not available:", route, impl.src.error)
             return True
-        fails, base = oracle_check(impl, route, poly, [pt], rp["exact"], sk)
+        fails, base = oracle_check(impl, route, poly, [pt], rp["exact"], sk, k=rp.get("k", 3))
         print("route", route, "answers", bits(base), "oracle failures:", fails)
         return bool(fails)
     if rp.get("part") == "mirror":
